@@ -173,8 +173,19 @@ def coq_makefile():
 
 
 def make(targets, timeout=3000, jobs=16):
-    if not os.path.exists(os.path.join(COQ, "Makefile")):
+    stamp = os.path.join(COQ, ".vfiles")
+    cur = "\n".join(v_files())
+    try:
+        old = open(stamp).read()
+    except FileNotFoundError:
+        old = None
+    if old != cur or not os.path.exists(os.path.join(COQ, "Makefile")):
         coq_makefile()
+        try:
+            os.remove(os.path.join(COQ, ".Makefile.d"))
+        except FileNotFoundError:
+            pass
+        open(stamp, "w").write(cur)
     rc, out = sh("make -j%d %s" % (jobs, " ".join(targets)), cwd=COQ, timeout=timeout)
     if rc != 0 and "No rule to make target" in out:
         coq_makefile()
